@@ -40,6 +40,9 @@
 //! `cuts` is `all` (every offset 0..=len) or a comma list.  These kinds also carry the L3 verdict.
 //!
 //! Implementation-only oracle:
+//!   atwin fmt seed p q        the ASYNC twin of the reader of fmt (bgzf bam bcf cram cramc vcfgz samgz vcf sam
+//!                             fastq fasta csi tabix bai gzi fai crai) against the blocking reader at every cut:
+//!                             no panic / hang, the same header, items and outcome kind as the blocking reader
 //!   hdrcut fmt seed n         raw (uncompressed) BAM / BCF stream with n records, cut at every offset
 //!                             up to the end of its header: the header read must fail below the
 //!                             header's end
@@ -1940,6 +1943,405 @@ fn run_cramb(c: &Case) -> Obs {
 }
 
 // ---------------------------------------------------------------------------------------------
+// implementation-only: the ASYNC twin of every reader, at every cut, against the blocking reader
+
+/// what one reader made of one prefix: header (canonical text), items (canonical text), stop
+#[derive(Clone, Debug, PartialEq)]
+struct Twin {
+    hdr: Option<String>,
+    items: Vec<String>,
+    stop: Stop,
+}
+
+fn twin_of(hdr: Option<String>, items: Vec<String>, r: Outcome<std::io::Result<()>>) -> Twin {
+    let stop = match r {
+        Outcome::Done(Ok(())) => Stop::Eof,
+        Outcome::Done(Err(e)) => Stop::Err(nv::errkind(&e)),
+        Outcome::Panicked(m) => Stop::Panic(m),
+    };
+    Twin { hdr, items, stop }
+}
+
+fn sam_header_text(h: &sam::Header) -> std::io::Result<String> {
+    let mut t = Vec::new();
+    sam::io::Writer::new(&mut t).write_header(h)?;
+    Ok(hex(&t))
+}
+
+fn vcf_header_text(h: &vcf::Header) -> std::io::Result<String> {
+    let mut t = Vec::new();
+    vcf::io::Writer::new(&mut t).write_header(h)?;
+    Ok(hex(&t))
+}
+
+/// the blocking reader of format `fmt` driven to the end of `bytes`
+fn twin_sync(fmt: &str, bytes: &[u8]) -> Twin {
+    let mut hdr = None;
+    let mut items = Vec::new();
+    let r = nv::guarded(AssertUnwindSafe(|| -> std::io::Result<()> {
+        match fmt {
+            "bgzf" => {
+                let mut r = bgzf::io::Reader::new(bytes);
+                let mut buf = [0u8; 64];
+                let mut all = Vec::new();
+                loop {
+                    // the bytes delivered before an error count: keep them in `items`
+                    match r.read(&mut buf) {
+                        Ok(0) => break,
+                        Ok(n) => all.extend_from_slice(&buf[..n]),
+                        Err(e) => {
+                            items.push(hex(&all));
+                            return Err(e);
+                        }
+                    }
+                }
+                items.push(hex(&all));
+            }
+            "bam" => {
+                let mut r = bam::io::Reader::new(bytes);
+                hdr = Some(sam_header_text(&r.read_header()?)?);
+                let mut rec = bam::Record::default();
+                while r.read_record(&mut rec)? != 0 {
+                    items.push(render(&rec));
+                }
+            }
+            "bcf" => {
+                let mut r = bcf::io::Reader::new(bytes);
+                hdr = Some(vcf_header_text(&r.read_header()?)?);
+                let mut rec = bcf::Record::default();
+                while r.read_record(&mut rec)? != 0 {
+                    items.push(render(&rec));
+                }
+            }
+            "cramc" => {
+                let mut r = cram::io::Reader::new(bytes);
+                hdr = Some(sam_header_text(&r.read_header()?)?);
+                let mut c = cram::io::reader::Container::default();
+                loop {
+                    let n = r.read_container(&mut c)?;
+                    if n == 0 {
+                        break;
+                    }
+                    items.push(format!("{n}/{}/{}", c.header().record_count(), c.header().landmarks().len()));
+                }
+            }
+            "cram" => {
+                let mut r = cram::io::Reader::new(bytes);
+                let h = r.read_header()?;
+                hdr = Some(sam_header_text(&h)?);
+                for rec in r.records(&h) {
+                    items.push(render(&rec?));
+                }
+            }
+            "vcfgz" | "vcf" => {
+                let mut rec = vcf::Record::default();
+                if fmt == "vcfgz" {
+                    let mut r = vcf::io::Reader::new(bgzf::io::Reader::new(bytes));
+                    hdr = Some(vcf_header_text(&r.read_header()?)?);
+                    while r.read_record(&mut rec)? != 0 {
+                        items.push(render(&rec));
+                    }
+                } else {
+                    let mut r = vcf::io::Reader::new(bytes);
+                    hdr = Some(vcf_header_text(&r.read_header()?)?);
+                    while r.read_record(&mut rec)? != 0 {
+                        items.push(render(&rec));
+                    }
+                }
+            }
+            "samgz" | "sam" => {
+                let mut rec = sam::Record::default();
+                if fmt == "samgz" {
+                    let mut r = sam::io::Reader::new(bgzf::io::Reader::new(bytes));
+                    hdr = Some(sam_header_text(&r.read_header()?)?);
+                    while r.read_record(&mut rec)? != 0 {
+                        items.push(render(&rec));
+                    }
+                } else {
+                    let mut r = sam::io::Reader::new(bytes);
+                    hdr = Some(sam_header_text(&r.read_header()?)?);
+                    while r.read_record(&mut rec)? != 0 {
+                        items.push(render(&rec));
+                    }
+                }
+            }
+            "fastq" => {
+                let mut r = noodles_fastq::io::Reader::new(bytes);
+                let mut rec = noodles_fastq::Record::default();
+                while r.read_record(&mut rec)? != 0 {
+                    items.push(render(&rec));
+                }
+            }
+            "fasta" => {
+                let mut r = fasta::io::Reader::new(bytes);
+                loop {
+                    let mut def = fasta::record::Definition::default();
+                    if r.read_definition(&mut def)? == 0 {
+                        break;
+                    }
+                    let mut seq = Vec::new();
+                    r.read_sequence(&mut seq)?;
+                    items.push(format!("{def:?}/{}", hex(&seq)));
+                }
+            }
+            "csi" => items.push(render(&csi::io::Reader::new(bytes).read_index()?)),
+            "tabix" => items.push(render(&tabix::io::Reader::new(bytes).read_index()?)),
+            "bai" => items.push(render(&bam::bai::io::Reader::new(bytes).read_index()?)),
+            "gzi" => items.push(render(&bgzf::gzi::io::Reader::new(bytes).read_index()?)),
+            "fai" => items.push(render(&fasta::fai::io::Reader::new(bytes).read_index()?)),
+            "crai" => items.push(render(&cram::crai::io::Reader::new(bytes).read_index()?)),
+            _ => unreachable!(),
+        }
+        Ok(())
+    }));
+    twin_of(hdr, items, r)
+}
+
+/// the async reader of format `fmt` driven to the end of `bytes` on a current-thread runtime
+fn twin_async(fmt: &str, bytes: &[u8]) -> Twin {
+    use futures::StreamExt as _;
+    use tokio::io::AsyncReadExt as _;
+    let mut hdr = None;
+    let mut items = Vec::new();
+    let r = nv::guarded(AssertUnwindSafe(|| -> std::io::Result<()> {
+        let rt = tokio::runtime::Builder::new_current_thread().max_blocking_threads(4).build().unwrap();
+        rt.block_on(async {
+            match fmt {
+                "bgzf" => {
+                    let mut r = bgzf::r#async::io::Reader::new(bytes);
+                    let mut buf = [0u8; 64];
+                    let mut all = Vec::new();
+                    loop {
+                        match r.read(&mut buf).await {
+                            Ok(0) => break,
+                            Ok(n) => all.extend_from_slice(&buf[..n]),
+                            Err(e) => {
+                                items.push(hex(&all));
+                                return Err(e);
+                            }
+                        }
+                    }
+                    items.push(hex(&all));
+                }
+                "bam" => {
+                    let mut r = bam::r#async::io::Reader::new(bytes);
+                    hdr = Some(sam_header_text(&r.read_header().await?)?);
+                    let mut rec = bam::Record::default();
+                    while r.read_record(&mut rec).await? != 0 {
+                        items.push(render(&rec));
+                    }
+                }
+                "bcf" => {
+                    let mut r = bcf::r#async::io::Reader::new(bytes);
+                    hdr = Some(vcf_header_text(&r.read_header().await?)?);
+                    let mut rec = bcf::Record::default();
+                    while r.read_record(&mut rec).await? != 0 {
+                        items.push(render(&rec));
+                    }
+                }
+                "cramc" => {
+                    let mut r = cram::r#async::io::Reader::new(bytes);
+                    hdr = Some(sam_header_text(&r.read_header().await?)?);
+                    let mut c = cram::io::reader::Container::default();
+                    loop {
+                        let n = r.read_container(&mut c).await?;
+                        if n == 0 {
+                            break;
+                        }
+                        items.push(format!("{n}/{}/{}", c.header().record_count(), c.header().landmarks().len()));
+                    }
+                }
+                "cram" => {
+                    let mut r = cram::r#async::io::Reader::new(bytes);
+                    let h = r.read_header().await?;
+                    hdr = Some(sam_header_text(&h)?);
+                    let mut st = std::pin::pin!(r.records(&h));
+                    while let Some(rec) = st.next().await {
+                        items.push(render(&rec?));
+                    }
+                }
+                "vcfgz" | "vcf" => {
+                    let mut rec = vcf::Record::default();
+                    if fmt == "vcfgz" {
+                        let mut r = vcf::r#async::io::Reader::new(bgzf::r#async::io::Reader::new(bytes));
+                        hdr = Some(vcf_header_text(&r.read_header().await?)?);
+                        while r.read_record(&mut rec).await? != 0 {
+                            items.push(render(&rec));
+                        }
+                    } else {
+                        let mut r = vcf::r#async::io::Reader::new(bytes);
+                        hdr = Some(vcf_header_text(&r.read_header().await?)?);
+                        while r.read_record(&mut rec).await? != 0 {
+                            items.push(render(&rec));
+                        }
+                    }
+                }
+                "samgz" | "sam" => {
+                    let mut rec = sam::Record::default();
+                    if fmt == "samgz" {
+                        let mut r = sam::r#async::io::Reader::new(bgzf::r#async::io::Reader::new(bytes));
+                        hdr = Some(sam_header_text(&r.read_header().await?)?);
+                        while r.read_record(&mut rec).await? != 0 {
+                            items.push(render(&rec));
+                        }
+                    } else {
+                        let mut r = sam::r#async::io::Reader::new(bytes);
+                        hdr = Some(sam_header_text(&r.read_header().await?)?);
+                        while r.read_record(&mut rec).await? != 0 {
+                            items.push(render(&rec));
+                        }
+                    }
+                }
+                "fastq" => {
+                    let mut r = noodles_fastq::r#async::io::Reader::new(bytes);
+                    let mut rec = noodles_fastq::Record::default();
+                    while r.read_record(&mut rec).await? != 0 {
+                        items.push(render(&rec));
+                    }
+                }
+                "fasta" => {
+                    let mut r = fasta::r#async::io::Reader::new(bytes);
+                    loop {
+                        let mut def = fasta::record::Definition::default();
+                        if r.read_definition(&mut def).await? == 0 {
+                            break;
+                        }
+                        let mut seq = Vec::new();
+                        r.read_sequence(&mut seq).await?;
+                        items.push(format!("{def:?}/{}", hex(&seq)));
+                    }
+                }
+                "csi" => items.push(render(&csi::r#async::io::Reader::new(bytes).read_index().await?)),
+                "tabix" => items.push(render(&tabix::r#async::io::Reader::new(bytes).read_index().await?)),
+                "bai" => items.push(render(&bam::bai::r#async::io::Reader::new(bytes).read_index().await?)),
+                "gzi" => items.push(render(&bgzf::gzi::r#async::io::Reader::new(bytes).read_index().await?)),
+                "fai" => items.push(render(&fasta::fai::r#async::io::Reader::new(bytes).read_index().await?)),
+                "crai" => items.push(render(&cram::crai::r#async::io::Reader::new(bytes).read_index().await?)),
+                _ => unreachable!(),
+            }
+            Ok(())
+        })
+    }));
+    twin_of(hdr, items, r)
+}
+
+/// the file of an `atwin` case: the same builders as the `file` kind, small sizes (every cut)
+fn twin_file(fmt: &str, rng: &mut Rng, p: u64, q: u64) -> Vec<u8> {
+    match fmt {
+        "bgzf" => {
+            let payload = rng.bytes(p as usize).iter().map(|b| b"ACGTN\n"[(*b % 6) as usize]).collect::<Vec<u8>>();
+            let breaks = files::random_breaks(rng, payload.len(), q);
+            let eof = rng.chance(3, 4);
+            files::bgzip(&payload, &breaks, eof)
+        }
+        "bam" => {
+            let text = files::sam_text(rng, p, false, false);
+            let eof = rng.chance(3, 4);
+            files::bam_file(&text, q as usize, eof)
+        }
+        "bcf" => files::bcf_file(&files::vcf_text(rng, p, false), q as usize),
+        "cram" | "cramc" => files::cram_file(&files::sam_text(rng, p, true, false), q as usize),
+        "vcfgz" => files::vcf_gz(&files::vcf_text(rng, p, false), q as usize),
+        "samgz" => files::sam_gz(&files::sam_text(rng, p, false, false), q as usize),
+        "vcf" => files::vcf_text(rng, p, false),
+        "sam" => files::sam_text(rng, p, false, false),
+        "fastq" => {
+            let mut s = String::new();
+            for i in 0..p {
+                let l = rng.range(1, 30) as usize;
+                let seq: String = (0..l).map(|_| *rng.pick(b"ACGTN") as char).collect();
+                let qual: String = (0..l).map(|_| (b'!' + rng.below(40) as u8) as char).collect();
+                let desc = if rng.chance(1, 2) { " d" } else { "" };
+                s.push_str(&format!("@r{i}{desc}\n{seq}\n+\n{qual}\n"));
+            }
+            s.into_bytes()
+        }
+        "fasta" => {
+            let mut s = String::new();
+            for i in 0..p {
+                let desc = if rng.chance(1, 2) { " desc" } else { "" };
+                s.push_str(&format!(">s{i}{desc}\n"));
+                for _ in 0..rng.range(1, 4) {
+                    let l = rng.range(1, 30) as usize;
+                    let seq: String = (0..l).map(|_| *rng.pick(b"ACGTN") as char).collect();
+                    s.push_str(&seq);
+                    s.push('\n');
+                }
+            }
+            s.into_bytes()
+        }
+        "csi" => files::csi_file(rng),
+        "tabix" => files::tabix_file_small(rng),
+        "bai" => files::bai_file(&files::bai_index(rng, true)),
+        "gzi" => files::gzi_file(rng),
+        "fai" => files::fai_file(rng),
+        "crai" => files::crai_file(rng),
+        _ => Vec::new(),
+    }
+}
+
+/// kind atwin fmt seed p q: a file of format fmt built from the seed, cut at EVERY offset when it
+/// has <= 4 KiB (else block boundaries -2..+19 and random offsets); each prefix read by the blocking
+/// reader and by its async twin.  Oracle: the async reader never panics or hangs, reads the intact
+/// file completely, and at every cut returns exactly what the blocking reader returns (header,
+/// items in order, outcome kind) - so the verdict of the blocking oracle (kinds above) carries
+/// over: items are a prefix, a clean end only where the blocking model has one.
+fn run_atwin(c: &Case) -> Obs {
+    let fmt = c.args[0].clone();
+    let mut rng = Rng::new(c.u(1));
+    let file = Arc::new(twin_file(&fmt, &mut rng, c.u(2), c.u(3)));
+    let cuts: Vec<usize> = if file.len() <= 4096 {
+        (0..=file.len()).collect()
+    } else {
+        let b = if matches!(fmt.as_str(), "bgzf" | "bam" | "bcf" | "vcfgz" | "samgz" | "csi" | "tabix") { files::bgzf_boundaries(&file) } else if fmt.starts_with("cram") { cram_boundaries(&file) } else { vec![0, file.len()] };
+        choose_cuts(&mut rng, file.len(), &b, 120)
+    };
+    let intact_s = twin_sync(&fmt, &file);
+    let intact_a = twin_async(&fmt, &file);
+    if intact_s.stop != Stop::Eof {
+        return Obs::fail("-", &format!("{fmt}-intact-file-unreadable"), &intact_s.stop.text());
+    }
+    if intact_a != intact_s {
+        let tag = if matches!(intact_a.stop, Stop::Panic(_)) { format!("panic-async-{fmt}") } else { format!("async-intact-file-differs-from-sync-{fmt}") };
+        return Obs::fail("-", &tag, &format!("{} items then {} (blocking: {} items then Eof)", intact_a.items.len(), intact_a.stop.text(), intact_s.items.len()));
+    }
+    let f2 = fmt.clone();
+    let res = sweep(&file, &cuts, move |p| (twin_sync(&f2, p), twin_async(&f2, p)));
+    let mut fails = Vec::new();
+    let (mut some_err, mut some_ok) = (false, false);
+    for (k, r) in res {
+        let Some((s, a)) = r else {
+            fails.push(hang(&format!("async-{fmt}"), k));
+            break;
+        };
+        some_err |= a.stop.is_err();
+        some_ok |= !a.items.is_empty();
+        if let Stop::Panic(m) = &a.stop {
+            fails.push((format!("panic-async-{fmt}"), format!("cut {k} of {}: {m}", file.len())));
+        } else if let Stop::Panic(m) = &s.stop {
+            fails.push((format!("panic-{fmt}"), format!("cut {k} of {}: {m}", file.len())));
+        } else if a != s
+            && !(a.stop == s.stop
+                && a.stop.is_err()
+                && [&a, &s].iter().all(|t| {
+                    t.hdr.as_ref().map_or(true, |h| Some(h) == intact_s.hdr.as_ref())
+                        && t.items.len() <= intact_s.items.len()
+                        && (fmt == "bgzf" || t.items[..] == intact_s.items[..t.items.len()])
+                }))
+        {
+            // (both readers end in the same ERROR after unchanged written items: which of the
+            // complete items before the failure point were already handed out may differ - the
+            // blocking lazy VCF reader asks for more input right behind a line terminator and so
+            // reports the torn next block before returning the complete last record -; the
+            // statement allows any prefix before an error.  A clean end must agree exactly.)
+            let what = if a.stop != s.stop { "outcome" } else if a.hdr != s.hdr { "header" } else { "items" };
+            fails.push((format!("async-differs-from-sync-{fmt}"), format!("cut {k} of {}: {what}: async {} items then {}, blocking {} items then {}", file.len(), a.items.len(), a.stop.text(), s.items.len(), s.stop.text())));
+        }
+    }
+    Obs { obs: "-".into(), verdict: "ok".into(), nontrivial: some_err && some_ok }.with_verdict(first_fail(fails))
+}
+
+// ---------------------------------------------------------------------------------------------
 // implementation-only oracle over generated files of every format
 
 /// offsets at which a field group of a well-formed BAI starts
@@ -2272,6 +2674,7 @@ fn run(c: &Case) -> Obs {
         "bamhf" | "bcfhf" | "bamhz" | "bcfhz" => run_hfile(c),
         "samth" | "vcfth" | "samthz" | "vcfthz" => run_thfile(c),
         "cramb" => run_cramb(c),
+        "atwin" => run_atwin(c),
         _ => Obs { obs: "-".into(), verdict: "skip".into(), nontrivial: false },
     }
 }
@@ -2592,6 +2995,19 @@ fn generate(rng: &mut Rng, tier: &str, w: &mut CaseWriter) {
     for _ in 0..(3 * scale) {
         for fmt in ["bam", "bcf"] {
             w.push("hdrcut", vec![fmt.into(), rng.next().to_string(), rng.range(0, 3).to_string()]);
+        }
+    }
+
+    // --- implementation-only: the async twin of every reader against the blocking reader, every cut
+    for i in 0..(2 * scale) {
+        for fmt in ["bgzf", "bam", "bcf", "cram", "cramc", "vcfgz", "samgz", "vcf", "sam", "fastq", "fasta", "csi", "tabix", "bai", "gzi", "fai", "crai"] {
+            let (p, q) = match fmt {
+                "bgzf" => (if i == 0 { rng.range(1, 400) } else { rng.range(400, 2500) }, 4),
+                "cram" | "cramc" => (rng.range(1, 6), rng.range(0, 2)),
+                "fastq" | "fasta" => (rng.range(1, 5), 0),
+                _ => (if i == 0 { 1 } else { rng.range(2, 5) }, rng.range(0, 2)),
+            };
+            w.push("atwin", vec![fmt.into(), rng.next().to_string(), p.to_string(), q.to_string()]);
         }
     }
 
